@@ -1,6 +1,9 @@
 package codecs
 
 import (
+	"fmt"
+	"io"
+
 	"github.com/datastax/go-cassandra-native-protocol/compression/lz4"
 	"github.com/datastax/go-cassandra-native-protocol/compression/snappy"
 	"github.com/datastax/go-cassandra-native-protocol/frame"
@@ -12,11 +15,11 @@ var (
 		&partialQueryCodec{}, &partialExecuteCodec{}, &partialBatchCodec{},
 	}
 
-	CustomRawCodec = frame.NewRawCodec(CustomMessageCodecs...)
+	CustomRawCodec frame.RawCodec = recoveringRawCodec{frame.NewRawCodec(CustomMessageCodecs...)}
 
 	CustomRawCodecsWithCompression = map[string]frame.RawCodec{
-		"lz4":    frame.NewRawCodecWithCompression(&lz4.Compressor{}, CustomMessageCodecs...),
-		"snappy": frame.NewRawCodecWithCompression(&snappy.Compressor{}, CustomMessageCodecs...),
+		"lz4":    recoveringRawCodec{frame.NewRawCodecWithCompression(&lz4.Compressor{}, CustomMessageCodecs...)},
+		"snappy": recoveringRawCodec{frame.NewRawCodecWithCompression(&snappy.Compressor{}, CustomMessageCodecs...)},
 	}
 
 	DefaultRawCodec                 = frame.NewRawCodec()
@@ -27,3 +30,32 @@ var (
 
 	CompressionNames = []string{"lz4", "snappy"}
 )
+
+// recoveringRawCodec turns a panic of the protocol library while it decodes a frame into a decoding error. The message
+// decoders of the library allocate by the element counts they read without checking their sign: a RESULT or ERROR body
+// that announces a negative column, row or reason count (sent by a misbehaving client or backend) panics in `make()`,
+// which would otherwise end the process from a connection's read goroutine.
+type recoveringRawCodec struct {
+	frame.RawCodec
+}
+
+func recovered(err *error) {
+	if r := recover(); r != nil {
+		*err = fmt.Errorf("cannot decode frame: %v", r)
+	}
+}
+
+func (c recoveringRawCodec) DecodeFrame(source io.Reader) (frm *frame.Frame, err error) {
+	defer recovered(&err)
+	return c.RawCodec.DecodeFrame(source)
+}
+
+func (c recoveringRawCodec) DecodeBody(header *frame.Header, source io.Reader) (body *frame.Body, err error) {
+	defer recovered(&err)
+	return c.RawCodec.DecodeBody(header, source)
+}
+
+func (c recoveringRawCodec) ConvertFromRawFrame(raw *frame.RawFrame) (frm *frame.Frame, err error) {
+	defer recovered(&err)
+	return c.RawCodec.ConvertFromRawFrame(raw)
+}
